@@ -4,18 +4,21 @@ from checks_c10 import prove_run
 PROPERTY = "C04"
 
 CHECK = {
-    "lean_modules": ["P3R.Props.C04"],
+    "lean_modules": ["P3R.Props.C04", "P3R.Props.C04Full", "P3R.Witness.C04"],
     "theorems": ["P3R.C04.readers_agree", "P3R.C04.row_sat_add", "P3R.C04.row_sat_mul", "P3R.C04.row_sat_bool",
-                 "P3R.C04.row_sat_muladd", "P3R.C04.accepted_alu_sat_partial", "P3R.C04.const_not_bound"],
+                 "P3R.C04.row_sat_muladd", "P3R.C04.row_sat_horner", "P3R.C04.accepted_alu_sat_partial", "P3R.C04.const_not_bound",
+                 # composition: balanced bus + single creator (C09) + row constraints on cells => a satisfying assignment exists
+                 "P3R.C04.bus_single_valued", "P3R.C04.genPrep_slots", "P3R.C04.rowsOk_sat", "P3R.C04.accepted_sat",
+                 "P3R.C04.accepted_sat_genPrep", "P3R.Witness.C04.accepted_sat_nonvacuous"],
     "run": lambda ctx: prove_run(ctx, "C04", 4),
     "trusted_base": ["ideal STARK/LogUp: an accepted proof implies row constraints hold on some committed trace and the WitnessChecks bus is balanced as a signed multiset (DESIGN §2)"],
-    "assumptions": ["non-Horner ALU ops, D = 1 in the Lean composition theorem; permutation / recompose rows are not modelled"],
+    "assumptions": ["D = 1 and single-step Horner rows in the Lean composition theorem (packed arities are covered by C11's packed2/3_iff); accepted_sat assumes no ALU operand is off the bus (role `skip`; 0 of 36k generated rows in the C09 run) and that a Const row's cell is the circuit's constant (false today: finding F4); permutation / recompose rows are not modelled"],
 }
 
 MANIFEST_ENTRY = {
     "property_id": "C04", "quick_cmd": "bin/check C04 --tier quick", "thorough_cmd": "bin/check C04 --tier thorough",
     "evidence_file": "evidence/C04.json", "replay_cmd_template": "bin/check C04 --replay {path}", "engine": "lean-models",
     "technique": "Lean 4 proof that balanced bus + vanishing row constraints imply the op relations (partial: constants, Horner) + forged-trace prove/verify",
-    "level_claimed": {"category": "proof", "text": "readers_agree (bus defines one value per slot), row_sat_* and accepted_alu_sat_partial proved; const_not_bound proves the acceptance conditions do not bind constants (finding F4, replayed on the real prover every run); forged traces through the real prover judged by an independent sat check.", "design_ref": "4/C04"},
+    "level_claimed": {"category": "proof", "text": "accepted_sat: a balanced WitnessChecks bus over the roles of the role scan (single creator proved in C09) together with vanishing row constraints (ADD/MUL/BOOL/MUL_ADD/single-step HORNER, D=1) yields an assignment satisfying every op relation — proved for every circuit and trace, with readers_agree / bus_single_valued / row_sat_* as steps; const_not_bound proves the acceptance conditions do not bind constants (finding F4, replayed on the real prover every run); forged traces through the real prover judged by an independent sat check.", "design_ref": "4/C04"},
     "level_note": "cryptographic soundness assumed ideal; constants (F4) are a known finding; NPO rows not modelled",
 }
